@@ -95,6 +95,17 @@ def run(ctx):
     rb.expect(okb, 'start:readers', inc[0].loc if inc else f.where(), 'the target copy gains one reader exactly when the access reads', note='readers++ iff READ')
     oko = len(own) == 1 and mode_guard(f, own[0].point, 'PARSEC_FLOW_ACCESS_WRITE') is True
     rb.expect(oko, 'start:owner', own[0].loc if own else f.where(), 'the device becomes the owner exactly when the access writes', note='owner_device = device iff WRITE')
+    # ownership is given up (owner_device = -1) only on account of the target's own copy being the OWNED one: a reader must never
+    # strip the ownership of another device, whose copy stays OWNED and is found through owner_device by the next access
+    rel = [s_ for s_ in f.stores('%s->owner_device' % data) if s_.rhs is not None and (s_.rhs.cv == -1 or s_.rhs.s == '-1')]
+    tgt = [s_ for s_ in f.stores() if s_.lhs.k == 'ref' and s_.rhs is not None and s_.rhs.s == '%s->device_copies[%s]' % (data, dev)]
+    tname = tgt[0].lhs.s if len(tgt) == 1 else None
+    for s_ in rel:
+        def own_copy_owned(a, t):
+            return t is True and a.k == 'bin' and a.op == '==' and any(x.s == '%s->coherency_state' % tname for x in a.ch) and 'PARSEC_DATA_COHERENCY_OWNED' in (gc.macro_names(f, a) | {x.s for x in a.ch})
+        rb.expect(tname is not None and f.guarded_by(s_.point, own_copy_owned) and mode_guard(f, s_.point, 'PARSEC_FLOW_ACCESS_WRITE') is False, 'start:owner-release', s_.loc,
+                  'owner_device may be reset to -1 only when the copy of the requesting device itself is the OWNED one and the access does not write: a read by another device must leave the owner in place (its copy stays OWNED and later accesses locate it through owner_device)',
+                  note='owner_device = -1 only for an OWNED target copy on a read-only access')
     # both tests are on every path to every return: the blocks holding the READ/WRITE tests of the bookkeeping dominate all returns
     okall = False
     if okb and oko:
